@@ -20,6 +20,9 @@ def jobs(tier):
     add("c05.bb", 1 if q else 2, grace=1, threads=2, calls=1, ksteps=4, soft=2, hard=2, tbuf=2)
     add("c05.ub", 1, grace=1, threads=3, calls=1, ksteps=3, soft=1, hard=1, tbuf=1)
     add("c05.ub", 1 if q else 2, grace=0, threads=2, calls=1, ksteps=2, soft=1, hard=1, tbuf=1)  # control: ordering disabled
+    # the shutdown drain (Backend::stop / ~ManualBackendWorker) instead of ordinary polls writes what is left: same order
+    add("c05.ub", 1, grace=1, threads=2, calls=2, ksteps=2, soft=1, hard=1, tbuf=1, exitdrain=1)
+    add("c05.ub", 1, grace=1, threads=2, calls=2, ksteps=2, soft=2, hard=2, tbuf=1, exitdrain=1)
     # queue growth: a read pass that ends on the hard limit exactly at the end of the first buffer, batch mode, another
     # thread with a newer statement
     for na, hard in ((6, 4), (5, 4), (6, 2)):
@@ -40,7 +43,7 @@ def jobs(tier):
 def run(ctx):
     ctx.rule = ("all schedules up to the preemption bound of 2-3 frontends x 1-2 log calls, each call split into 'stamp' and "
                 "'enqueue' steps by the interposed clock, a clock actor advancing virtual time in steps of half a grace period, "
-                "and the backend preemptible before its ordering clock read, before each queue read and in the batch loop; "
+                "and the backend preemptible before its ordering clock read, before each queue read and in the batch loop, the rest written by ordinary polls or by the shutdown drain; "
                 "oracle: if every statement was enqueued within the grace period of its timestamp the sink sees non-decreasing "
                 "timestamps, and each written timestamp equals the clock value its call read; distinct = distinct outcomes")
     ctx.set_deadline(170 if ctx.tier == "quick" else 1800)
